@@ -661,6 +661,7 @@ pub fn run(tier: Tier, _seed: u64, tally: &mut Tally) -> CheckMeta {
     for p in parts {
         tally.merge(p);
     }
+    tally.notes.push(format!("{} crashes or missed deadlines did not reproduce when the same input was walked again in a fresh worker process; they are not counted", crate::isolate::TRANSIENT.load(std::sync::atomic::Ordering::Relaxed)));
     tally.states = tally.evaluations;
     tally.transitions = tally.evaluations;
     tally.validated = tally.evaluations;
